@@ -31,7 +31,7 @@ def impl_vote(copies, bs, use_files=False):
     """run the real routine; returns (out bytes, status, reported offsets or None)"""
     import re
     from pyFileFixity import replication_repair as rr
-    if use_files or len(copies) < 3:
+    if use_files:
         d = os.path.join(common.scratch(), "c06_%d" % random.getrandbits(40))
         os.makedirs(d)
         paths = []
@@ -142,8 +142,15 @@ def cases(tier, seed, escalate):
 
 def check_case(bs, copies, oc, use_files):
     """oracle S on the implementation; returns (impl reply, violation or None)"""
-    out, rc, errs = impl_vote(copies, bs, use_files)
     sout, src, serrs = spec_vote(copies)
+    try:
+        out, rc, errs = impl_vote(copies, bs, use_files)
+    except Exception as ex:     # an exception out of the routine is a failure of the property on this input, not of the harness
+        v = {"input": {"bs": bs, "copies": [bytes(c).hex() for c in copies], "output": "directory" if use_files else "file handle"},
+             "impl": {"raised": "%s: %s" % (type(ex).__name__, str(ex)[:160])},
+             "required": {"out": sout.hex(), "status": src, "errors": serrs},
+             "what": "majority_vote_byte_scan raised instead of returning the per-offset plurality / the first copy"}
+        return "exception", v
     v = None
     if out != sout or rc != src or (serrs is not None and errs != serrs):
         v = {"input": {"bs": bs, "copies": [bytes(c).hex() for c in copies]},
